@@ -1,6 +1,8 @@
 import SynapModel.Proto
 import SynapModel.Drv.Data
 import SynapModel.Drv.Train
+import SynapModel.Drv.Modules
+import SynapModel.Drv.Optim
 /-!
 # `synapdrv` : line-protocol interpreter of the model
 
@@ -10,7 +12,8 @@ model; a part may keep state between lines (`State`).  `reset` clears all state.
 open Synap
 
 structure State where
-  dummy : Unit := ()
+  mods : Modules.World := Modules.World.empty
+  opt : Drv.Optim.St := .none
 
 def step (st : State) (line : String) : State × String :=
   let toks := (line.trimAscii.toString.splitOn " ").filter (· ≠ "")
@@ -18,6 +21,8 @@ def step (st : State) (line : String) : State × String :=
   | [] => (st, "")
   | "data" :: rest => (st, Drv.Data.run rest)
   | "train" :: rest => (st, Drv.Train.run rest)
+  | "mod" :: rest => let (w, o) := Drv.Modules.run st.mods rest; ({ st with mods := w }, o)
+  | "opt" :: rest => let (w, o) := Drv.Optim.run st.opt rest; ({ st with opt := w }, o)
   | "reset" :: _ => ({}, "ok")
   | _ => (st, "bad-op")
 
